@@ -11,6 +11,7 @@ import (
 	"math"
 	"sort"
 	"strconv"
+	"strings"
 	"sync"
 	"time"
 
@@ -390,6 +391,27 @@ func bigGlyf(r *v.Rand) *sfnt.Font {
 	return &sfnt.Font{Outlines: o}
 }
 
+// longNameGlyf: miniGlyf with glyph names, one of them 255 + (seed mod 4)
+// bytes long (255: the longest a format-2 post table can hold; beyond it the
+// recorded finding sigLongName).
+func longNameGlyf(seed int, r *v.Rand) *sfnt.Font {
+	f := miniGlyf(r)
+	o := f.Outlines.(*glyf.Outlines)
+	o.Names = make([]string, len(o.Glyphs))
+	for i := range o.Names {
+		o.Names[i] = "g" + strconv.Itoa(i)
+	}
+	o.Names[0] = ".notdef"
+	if n := len(o.Names); n > 1 {
+		at := 1 // followed by other names: the string data no longer parses
+		if seed >= 4 {
+			at = n - 1 // last: the name comes back cut to len mod 256 bytes
+		}
+		o.Names[at] = strings.Repeat("n", 255+((seed%4)+4)%4)
+	}
+	return f
+}
+
 // bigCFF: a CFF font with several thousand small glyphs.
 func bigCFF(r *v.Rand) *sfnt.Font {
 	n := v.Pick(r, []int{2000, 5000})
@@ -619,6 +641,8 @@ func buildTemplate(t tpl) (f *sfnt.Font, err error) {
 		f = sizedGlyf(int(t.Seed), r.Fork("glyphs"))
 	case t.Name == "glyfbig":
 		f = bigGlyf(r.Fork("glyphs"))
+	case t.Name == "glyflong":
+		f = longNameGlyf(int(t.Seed), r.Fork("glyphs"))
 	case t.Name == "cffbig":
 		f = bigCFF(r.Fork("glyphs"))
 	case len(t.Name) > 3 && t.Name[:3] == "go:":
